@@ -12,8 +12,17 @@ use crate::{
     spec::{FeatSpec, RuleSpec, ScenSpec, StepKind},
 };
 
-pub const RETRY_TAGS: [Option<&str>; 5] =
-    [None, Some("retry"), Some("retry(3)"), Some("retry.after(2s)"), Some("retry(3).after(2s)")];
+pub const RETRY_TAGS: [Option<&str>; 8] = [
+    None,
+    Some("retry"),
+    Some("retry(3)"),
+    Some("retry.after(2s)"),
+    Some("retry(3).after(2s)"),
+    Some("retry(10)"),
+    Some("retry(0).after(0s)"),
+    // not a retry tag
+    Some("retryable"),
+];
 pub const FILTERS: [Option<&str>; 4] = [None, Some("@x"), Some("not @x"), Some("@x and @y")];
 
 #[derive(Clone, Debug)]
@@ -32,9 +41,9 @@ pub struct Case {
 
 pub fn cases() -> Vec<Case> {
     let mut v = Vec::new();
-    for sc in 0..5 {
-        for rule in 0..5 {
-            for feat in 0..5 {
+    for sc in 0..RETRY_TAGS.len() {
+        for rule in 0..RETRY_TAGS.len() {
+            for feat in 0..RETRY_TAGS.len() {
                 for with_rule in [false, true] {
                     if !with_rule && rule != 0 {
                         continue;
@@ -206,7 +215,7 @@ pub fn run(a: &ShardArgs) -> serde_json::Value {
         "property": "C18", "tier": a.tier,
         "total_configs": cs.len() + e2e.len(), "configs_done": evaluations, "configs_skipped_budget": 0,
         "evaluations": evaluations, "distinct_nontrivial": nontrivial,
-        "rule": "complete product: retry tag in {none,@retry,@retry(3),@retry.after(2s),@retry(3).after(2s)} on scenario x rule x feature (with and without a rule) x --retry {none,5,0} x --retry-after {none,7s} x --retry-tag-filter {none,@x,not @x,@x and @y} x placement of x (none/scenario/rule/feature) and y; plus, end to end under the gate executor, 1500 configurations with differing builder / CLI retries, delays, filters, limits and fail-fast flags (family `resolve`): budget on the first event, delay, limit and fail-fast behaviour must be what the precedence resolves to; non-trivial = at least two sources compete",
+        "rule": "complete product: retry tag in {none,@retry,@retry(3),@retry.after(2s),@retry(3).after(2s),@retry(10),@retry(0).after(0s),@retryable (an ordinary tag)} on scenario x rule x feature (with and without a rule) x --retry {none,5,0} x --retry-after {none,7s} x --retry-tag-filter {none,@x,not @x,@x and @y} x placement of x (none/scenario/rule/feature) and y; plus, end to end under the gate executor, 1500 configurations with differing builder / CLI retries, delays, filters, limits and fail-fast flags (family `resolve`): budget on the first event, delay, limit and fail-fast behaviour must be what the precedence resolves to; non-trivial = at least two sources compete",
         "exhaustive": true,
         "violations": violations, "samples": samples,
     })
